@@ -442,7 +442,8 @@ pub fn inputs(tier: &str, seed: u64, mut f: impl FnMut(&[u8], &str)) {
 /// separators the parsers look for), so that every byte offset near the start
 /// and the end of a field falls inside a character in some case
 fn ustr(r: &mut Rng) -> String {
-    const POOL: [&str; 14] = ["a", "Z", ".", "0", "\u{e9}", "\u{fc}", "\u{65e5}", "\u{672c}", "\u{1d11e}", "\u{301}", "\"", " ", "\u{a0}", "\u{3000}"];
+    // the last five: characters whose UTF-16 code units contain a byte 0x0A
+    const POOL: [&str; 19] = ["a", "Z", ".", "0", "\u{e9}", "\u{fc}", "\u{65e5}", "\u{672c}", "\u{1d11e}", "\u{301}", "\"", " ", "\u{a0}", "\u{3000}", "\u{4e0a}", "\u{0a41}", "\u{010a}", "\u{1040a}", "\u{200a}"];
     let n = r.below(6);
     let mut s = String::new();
     for _ in 0..n {
